@@ -1,21 +1,30 @@
 import TapkeeVerif.Model.Mat
+import TapkeeVerif.Model.DMat
+import TapkeeVerif.Model.Center
+import TapkeeVerif.Model.Mds
 /-!
 # C11 — landmark selection, Landmark MDS, triangulation, Landmark Isomap (executable model, core Lean only)
 
 Transcribed statement by statement from
 
 * `routines/landmarks.hpp`            `select_landmarks_random`, `triangulate`
-* `routines/multidimensional_scaling.hpp` `compute_distance_matrix` (both overloads)
-* `utils/matrix.hpp`                  `centerMatrix`
-* `methods/landmark_multidimensional_scaling.hpp`, `methods/multidimensional_scaling.hpp`
-* `methods/landmark_isomap.hpp`, `methods/isomap.hpp` (everything after the geodesic matrix; the Dijkstra stage is C04's)
+* `routines/multidimensional_scaling.hpp` `compute_distance_matrix` (landmark overload)
+* `methods/landmark_multidimensional_scaling.hpp`
+* `methods/landmark_isomap.hpp` (everything after the geodesic matrix; the Dijkstra stage is C04's)
+
+`centerMatrix`, `colMeans`, `grandMean`, `negHalf`, `scale` (Model/Center.lean) and `sqDistMatrix`, `mdsPre`, `post`
+(Model/Mds.lean) are the C05 transcriptions of `utils/matrix.hpp` and of plain MDS and are reused as they are.
 
 The scalar `K` carries core notation classes only, so the same terms run at `K := Rat` in `model_c11` and are the
 subjects of the theorems of `Props/C11.lean` over any field.  External kernels are parameters: the shuffle is a
 permutation supplied by an oracle (`perm`), the eigensolver is a pair `(V, lam)`, `sqrt` / fourth root are vectors of
 oracle values `s` / `q`; their contracts are hypotheses of the theorems and are checked on the observed values in every
 correspondence run.  Behaviour that is undefined or non-finite in the code is an explicit error state (`Err`).
+
+Every stage has a `…D` twin on array-backed `DMat`/`DVec` (what the driver runs, each intermediate tabulated once) with a
+theorem `…D_eq` saying that it is the function-level term.
 -/
+set_option linter.unusedSectionVars false
 namespace TapkeeVerif.Landmarks
 open TapkeeVerif
 
@@ -54,7 +63,7 @@ def landmarkCountFl (N : Nat) (r : Rat) : Nat := (rne53 (((N : Nat) : Rat) * r))
     everything from position `count` on is erased.  `begin() + count` past `end()` (ratio > 1) or before `begin()`
     (ratio < 0) is undefined behaviour: `none`. -/
 def selectLandmarksWith (count : Nat) (neg : Bool) (perm : List Nat) : Option (List Nat) :=
-  if neg || perm.length < count then none else some (perm.take count)
+  if neg || decide (perm.length < count) then none else some (perm.take count)
 
 def selectLandmarks (perm : List Nat) (ratio : Rat) : Option (List Nat) :=
   selectLandmarksWith (landmarkCount perm.length ratio) (decide (ratio < 0)) perm
@@ -66,58 +75,27 @@ def selectLandmarksFl (perm : List Nat) (r : Rat) : Option (List Nat) :=
 /-- `InClosedRange<ScalarType>(3.0 / n_vectors, 1.0)` of both `validate()`s, in exact arithmetic -/
 def ratioValid (N : Nat) (ratio : Rat) : Prop := (3 : Rat) / ((N : Nat) : Rat) ≤ ratio ∧ ratio ≤ 1
 
-/-! ## linear algebra over a scalar with core notation only -/
+/-- `InRange<IndexType>(1, n_vectors)` on `target_dimension` in the `ImplementationBase` constructor -/
+def dimValid (N d : Nat) : Prop := 1 ≤ d ∧ d < N
+
+/-! ## Landmark MDS -/
 section
 variable {K : Type} [Add K] [Sub K] [Mul K] [Div K] [Neg K] [Zero K] [NatCast K]
 variable {N nl d : Nat}
 
-/-- `x * -0.5` (`array() *= -0.5`) -/
-def negHalf (x : K) : K := -(x / ((2 : Nat) : K))
+/-- the callback restricted to the landmarks: `callback.distance(begin[landmarks[i]], begin[landmarks[j]])` -/
+def subCallback (δ : Mat N N K) (lm : Fin nl → Fin N) : Mat nl nl K := fun a b => δ (lm a) (lm b)
 
-/-- `d *= d` -/
-def sq (x : K) : K := x * x
-
-/-- `matrix.colwise().mean()` : entry `j` is the mean of column `j` -/
-def colMeans {n m : Nat} (A : Mat n m K) : Vec m K := fun j => (sumFin n fun i => A i j) / ((n : Nat) : K)
-
-/-- `matrix.rowwise().mean()` : entry `i` is the mean of row `i` -/
-def rowMeans {n m : Nat} (A : Mat n m K) : Vec n K := fun i => (sumFin m fun j => A i j) / ((m : Nat) : K)
-
-/-- `matrix.mean()` : sum of all coefficients over their number -/
-def grandMean {n m : Nat} (A : Mat n m K) : K :=
-  (sumFin n fun i => sumFin m fun j => A i j) / ((n * m : Nat) : K)
-
-/-- `centerMatrix` of `utils/matrix.hpp`, in the order written:
-    `col_means`, `grand_mean` (both of the *input*), `+= grand_mean`, `rowwise() -= col_meansᵀ`, `colwise() -= col_means`. -/
-def centerMatrix {n : Nat} (A : Mat n n K) : Mat n n K :=
-  let c := colMeans A
-  let g := grandMean A
-  fun i j => A i j + g - c j - c i
-
-/-- `compute_distance_matrix(begin, end, landmarks, callback)`: the callback is evaluated for `i ≤ j` only, squared,
-    and written to both `(i, j)` and `(j, i)`. -/
-def landmarkSqDist (δ : Mat N N K) (lm : Fin nl → Fin N) : Mat nl nl K :=
-  fun i j => if i.1 ≤ j.1 then sq (δ (lm i) (lm j)) else sq (δ (lm j) (lm i))
-
-/-- `compute_distance_matrix(begin, end, callback)` (all samples) -/
-def fullSqDist (δ : Mat N N K) : Mat N N K :=
-  fun i j => if i.1 ≤ j.1 then sq (δ i j) else sq (δ j i)
+/-- `compute_distance_matrix(begin, end, landmarks, callback)`: the callback is evaluated for `i ≤ j` only, squared
+    (`d *= d`) and written to both `(i, j)` and `(j, i)` — the same loop as the all-samples overload -/
+def landmarkSqDist (δ : Mat N N K) (lm : Fin nl → Fin N) : Mat nl nl K := sqDistMatrix (subCallback δ lm)
 
 /-- `landmark_distances_squared = distance_matrix.colwise().mean()` — taken BEFORE centring and kept for triangulation -/
 def lmdsMu (δ : Mat N N K) (lm : Fin nl → Fin N) : Vec nl K := colMeans (landmarkSqDist δ lm)
 
-/-- the matrix Landmark MDS hands to the eigensolver: `centerMatrix`, then `array() *= -0.5` -/
+/-- the matrix Landmark MDS hands to the eigensolver: `centerMatrix(distance_matrix); distance_matrix.array() *= -0.5` -/
 def lmdsB (δ : Mat N N K) (lm : Fin nl → Fin N) : Mat nl nl K :=
-  let C := centerMatrix (landmarkSqDist δ lm)
-  fun i j => negHalf (C i j)
-
-/-- the matrix (plain) MDS hands to the eigensolver -/
-def mdsB (δ : Mat N N K) : Mat N N K :=
-  let C := centerMatrix (fullSqDist δ)
-  fun i j => negHalf (C i j)
-
-/-- `embedding.first.col(i).array() *= sqrt(embedding.second(i))` with `s i` the value `sqrt` returned -/
-def scaleCols {n : Nat} (V : Mat n d K) (s : Vec d K) : Mat n d K := fun a i => V a i * s i
+  scale negHalf (centerMatrix (landmarkSqDist δ lm))
 
 /-- `col(i).array() /= second(i)` -/
 def divCols {n : Nat} (V : Mat n d K) (lam : Vec d K) : Mat n d K := fun a i => V a i / lam i
@@ -129,9 +107,16 @@ def landmarkPos? (lm : Fin nl → Fin N) (x : Fin N) : Option (Fin nl) :=
 
 /-- the expression of the second loop of `triangulate` for sample `x`:
     `-0.5 * first.transpose() * (distances_to_landmarks - landmark_distances_squared)` with
-    `distances_to_landmarks(a) = distance(x, lm a)²` and `first` already divided by the eigenvalues. -/
+    `distances_to_landmarks(a) = distance(x, lm a)²` (`d * d`) and `first` already divided by the eigenvalues (`W`). -/
 def triangulateRow (δ : Mat N N K) (lm : Fin nl → Fin N) (mu : Vec nl K) (W : Mat nl d K) (x : Fin N) : Vec d K :=
-  fun i => negHalf (sumFin nl fun a => W a i * (sq (δ x (lm a)) - mu a))
+  fun i => negHalf * sumFin nl fun a => W a i * (δ x (lm a) * δ x (lm a) - mu a)
+
+/-- both loops of `triangulate`: landmark rows copied from `Y`, the others triangulated against `W` -/
+def triangulateRows (δ : Mat N N K) (lm : Fin nl → Fin N) (mu : Vec nl K) (Y W : Mat nl d K) : Mat N d K :=
+  fun x =>
+    match landmarkPos? lm x with
+    | some a => Y a
+    | none => triangulateRow δ lm mu W x
 
 /-- error states of the landmark pipelines -/
 inductive Err where
@@ -141,60 +126,130 @@ inductive Err where
   | divZero
   deriving DecidableEq, Repr
 
+def anyZero [DecidableEq K] (lam : Vec d K) : Bool := (List.finRange d).any fun i => decide (lam i = 0)
+
 /-- `triangulate(begin, end, distance, landmarks, landmark_distances_squared, landmarks_embedding, d)`.
     `Y` is `landmarks_embedding.first` on entry, `lam` is `.second`. -/
 def triangulate [DecidableEq K] (δ : Mat N N K) (lm : Fin nl → Fin N) (mu : Vec nl K) (Y : Mat nl d K)
     (lam : Vec d K) : Except Err (Mat N d K) :=
-  if (List.finRange d).any (fun i => decide (lam i = 0)) then .error .divZero
-  else
-    let W := Mat.materialize (divCols Y lam)
-    .ok fun x =>
-      match landmarkPos? lm x with
-      | some a => Y a
-      | none => triangulateRow δ lm mu W x
+  if anyZero lam then .error .divZero
+  else .ok (triangulateRows δ lm mu Y (divCols Y lam))
 
 /-- `rightCols(target_dimension)` of the `n × n` eigenvector matrix is inside the matrix iff `d ≤ n` -/
 def rightColsInBounds (n d : Nat) : Bool := decide (d ≤ n)
 
 /-- `LandmarkMultidimensionalScalingImplementation::embed()` after landmark selection, given what the eigensolver
-    returned for `lmdsB` (`V`, `lam`) and what `sqrt` returned for the eigenvalues (`s`). -/
+    returned for `lmdsB` (`V`, `lam`) and what `sqrt` returned for the eigenvalues (`s`):
+    `first.col(i) *= sqrt(second(i))` (`post`), then `triangulate`. -/
 def lmdsEmbed [DecidableEq K] (δ : Mat N N K) (lm : Fin nl → Fin N) (V : Mat nl d K) (lam s : Vec d K) :
     Except Err (Mat N d K) :=
   if !rightColsInBounds nl d then .error .oob
-  else triangulate δ lm (lmdsMu δ lm) (Mat.materialize (scaleCols V s)) lam
+  else triangulate δ lm (lmdsMu δ lm) (post V s) lam
 
-/-- `MultidimensionalScalingImplementation::embed()` given the solver's answer for `mdsB` -/
+/-- `MultidimensionalScalingImplementation::embed()` given the solver's answer for `mdsPre` -/
 def mdsEmbed (V : Mat N d K) (s : Vec d K) : Except Err (Mat N d K) :=
-  if !rightColsInBounds N d then .error .oob else .ok (scaleCols V s)
+  if !rightColsInBounds N d then .error .oob else .ok (post V s)
+
+/-! ### staged twins for the driver -/
+
+def lmdsMuD (δ : DMat N N K) (lm : Fin nl → Fin N) : DVec nl K :=
+  let D := DMat.ofFn (landmarkSqDist δ.get lm)
+  DVec.ofFn (colMeans D.get)
+
+def lmdsBD (δ : DMat N N K) (lm : Fin nl → Fin N) : DMat nl nl K :=
+  let D := DMat.ofFn (landmarkSqDist δ.get lm)
+  let C := centerMatrixD D
+  DMat.ofFn (scale negHalf C.get)
+
+def triangulateD [DecidableEq K] (δ : DMat N N K) (lm : Fin nl → Fin N) (mu : DVec nl K) (Y : DMat nl d K)
+    (lam : DVec d K) : Except Err (DMat N d K) :=
+  if anyZero lam.get then .error .divZero
+  else
+    let W := DMat.ofFn (divCols Y.get lam.get)
+    .ok (DMat.ofFn (triangulateRows δ.get lm mu.get Y.get W.get))
+
+def lmdsEmbedD [DecidableEq K] (δ : DMat N N K) (lm : Fin nl → Fin N) (V : DMat nl d K) (lam s : DVec d K) :
+    Except Err (DMat N d K) :=
+  if !rightColsInBounds nl d then .error .oob
+  else triangulateD δ lm (lmdsMuD δ lm) (DMat.ofFn (post V.get s.get)) lam
+
+/-- the result of an `Except`-valued staged computation read back as a function matrix -/
+def getE {n m : Nat} (r : Except Err (DMat n m K)) : Except Err (Mat n m K) :=
+  match r with
+  | .error e => .error e
+  | .ok A => .ok A.get
+
+theorem lmdsMuD_eq (δ : DMat N N K) (lm : Fin nl → Fin N) : (lmdsMuD δ lm).get = lmdsMu δ.get lm := by
+  simp [lmdsMuD, lmdsMu, DMat.get_ofFn, DVec.get_ofFn]
+
+theorem lmdsBD_eq (δ : DMat N N K) (lm : Fin nl → Fin N) : (lmdsBD δ lm).get = lmdsB δ.get lm := by
+  simp [lmdsBD, lmdsB, DMat.get_ofFn, centerMatrixD_eq]
+
+theorem triangulateD_eq [DecidableEq K] (δ : DMat N N K) (lm : Fin nl → Fin N) (mu : DVec nl K) (Y : DMat nl d K)
+    (lam : DVec d K) : getE (triangulateD δ lm mu Y lam) = triangulate δ.get lm mu.get Y.get lam.get := by
+  unfold triangulateD triangulate
+  split <;> simp [getE, DMat.get_ofFn]
+
+theorem lmdsEmbedD_eq [DecidableEq K] (δ : DMat N N K) (lm : Fin nl → Fin N) (V : DMat nl d K) (lam s : DVec d K) :
+    getE (lmdsEmbedD δ lm V lam s) = lmdsEmbed δ.get lm V.get lam.get s.get := by
+  unfold lmdsEmbedD lmdsEmbed
+  split
+  · simp [getE]
+  · rw [triangulateD_eq, lmdsMuD_eq, DMat.get_ofFn]
 
 /-! ## Landmark Isomap after the geodesic stage -/
 
-/-- `distance_matrix = distance_matrix.array().square()` then the separate row / column centring of the
-    `n_l × N` matrix exactly as written in `methods/landmark_isomap.hpp`:
-    `col_means`, `row_means`, `grand_mean` of the squared matrix, `+= grand_mean`, `colwise() -= row_means`,
-    `rowwise() -= col_meansᵀ`, `*= -0.5`. -/
+/-- `matrix.rowwise().mean()` : entry `i` is the mean of row `i` -/
+def rowMeans {n m : Nat} (A : Mat n m K) : Vec n K := fun i => (sumFin m fun j => A i j) / ((m : Nat) : K)
+
+/-- `distance_matrix = distance_matrix.array().square()` -/
+def sqMat {n m : Nat} (G : Mat n m K) : Mat n m K := fun k j => G k j * G k j
+
+/-- the four in-place updates of `methods/landmark_isomap.hpp` given the three means computed before them:
+    `+= grand_mean`, `colwise() -= row_means` (entry `(k,j)` loses `r k`), `rowwise() -= col_meansᵀ` (loses `c j`),
+    `*= -0.5` -/
+def lisomapWith (D : Mat nl N K) (c : Vec N K) (r : Vec nl K) (g : K) : Mat nl N K :=
+  fun k j => (((D k j + g) - r k) - c j) * negHalf
+
+/-- what Landmark Isomap builds from the `n_l × N` matrix of geodesic distances `G` -/
 def lisomapPre (G : Mat nl N K) : Mat nl N K :=
-  let D : Mat nl N K := Mat.materialize fun k j => sq (G k j)
-  let c := colMeans D
-  let r := rowMeans D
-  let g := grandMean D
-  fun k j => negHalf (D k j + g - r k - c j)
+  lisomapWith (sqMat G) (colMeans (sqMat G)) (rowMeans (sqMat G)) (grandMean (sqMat G))
 
 /-- dense path: `distance_matrix * distance_matrix.transpose()` is what the solver sees -/
 def lisomapSym (B : Mat nl N K) : Mat nl nl K := Mat.mul B (Mat.transpose B)
 
-/-- `embedding = distance_matrixᵀ * V; embedding.col(i) /= sqrt(sqrt(lam i))` with `q i` the value of the double `sqrt` -/
+/-- `embedding = distance_matrixᵀ * V; embedding.col(i) /= sqrt(sqrt(lam i))`, `q i` the value of the double `sqrt` -/
+def lisomapRows (B : Mat nl N K) (V : Mat nl d K) (q : Vec d K) : Mat N d K :=
+  fun x i => (sumFin nl fun a => B a x * V a i) / q i
+
 def lisomapPost [DecidableEq K] (B : Mat nl N K) (V : Mat nl d K) (q : Vec d K) : Except Err (Mat N d K) :=
   if !rightColsInBounds nl d then .error .oob
-  else if (List.finRange d).any (fun i => decide (q i = 0)) then .error .divZero
-  else
-    let E := Mat.materialize (Mat.mul (Mat.transpose B) V)
-    .ok fun x i => E x i / q i
+  else if anyZero q then .error .divZero
+  else .ok (lisomapRows B V q)
 
-/-- `IsomapImplementation::embed()` after the geodesic stage: `square`, `centerMatrix`, `*= -0.5` -/
-def isomapB (G : Mat N N K) : Mat N N K :=
-  let C := centerMatrix (Mat.materialize fun i j => sq (G i j))
-  fun i j => negHalf (C i j)
+def lisomapPreD (G : DMat nl N K) : DMat nl N K :=
+  let D := DMat.ofFn (sqMat G.get)
+  let c := DVec.ofFn (colMeans D.get)
+  let r := DVec.ofFn (rowMeans D.get)
+  let g := grandMean D.get
+  DMat.ofFn (lisomapWith D.get c.get r.get g)
+
+def lisomapSymD (B : DMat nl N K) : DMat nl nl K := DMat.ofFn (lisomapSym B.get)
+
+def lisomapPostD [DecidableEq K] (B : DMat nl N K) (V : DMat nl d K) (q : DVec d K) : Except Err (DMat N d K) :=
+  if !rightColsInBounds nl d then .error .oob
+  else if anyZero q.get then .error .divZero
+  else .ok (DMat.ofFn (lisomapRows B.get V.get q.get))
+
+theorem lisomapPreD_eq (G : DMat nl N K) : (lisomapPreD G).get = lisomapPre G.get := by
+  simp [lisomapPreD, lisomapPre, DMat.get_ofFn, DVec.get_ofFn]
+
+theorem lisomapPostD_eq [DecidableEq K] (B : DMat nl N K) (V : DMat nl d K) (q : DVec d K) :
+    getE (lisomapPostD B V q) = lisomapPost B.get V.get q.get := by
+  unfold lisomapPostD lisomapPost
+  split
+  · simp [getE]
+  · split <;> simp [getE, DMat.get_ofFn]
 
 end
 end TapkeeVerif.Landmarks
